@@ -84,6 +84,8 @@ where
     }
 
     pub(crate) async fn run(&mut self, io: &mut PhysLayer) -> RequestError {
+        // the RTU server re-uses the session when it re-opens the port
+        self.reader.reset();
         loop {
             if let Err(err) = self.run_one(io).await {
                 tracing::warn!("session error: {}", err);
